@@ -364,6 +364,39 @@ const PARSE_TEXTS: [&str; 40] = [
     "0", "1", "10", "1.5", ".5", "5.", "1e2", "1E2", "1e+2", "1e-2", "1.5e3", "0.1", "0x10", "0XfF", "0xABCDEF", "0b101", "0B11", "1_000", "1_0.5_0", "0x_FF", "0b1_0", "1e1_0", "9007199254740993", "18446744073709551615", "18446744073709551616", "1e308", "1e309", "5e-324", "2.2250738585072014e-308", "0.30000000000000004", "123456789012345678901234567890", "0x7fffffffffffffff", "0xffffffffffffffff", "0b1111111111111111111111111111111111111111111111111111111111111111", "1e-400", "0e0", "00012", "1__0", "3.14159265358979323846", "4.35",
 ];
 
+/// programs holding one literal spelling in a few positions
+fn literal_texts() -> Vec<String> {
+    let bodies = [
+        "\\0", "\\00", "\\000", "\\0001", "\\0011", "\\0012", "\\0277", "\\1", "\\12", "\\123", "\\1234", "\\255", "\\2550", "\\2555", "\\9", "\\99", "\\0a", "\\10a",
+        "\\x41", "\\x4142", "\\x00", "\\xff", "\\xFF0", "\\u{48}", "\\u{0048}1", "\\u{e9}", "\\u{10FFFF}", "\\u{D800}", "\\z  \n  x", "\\z\n  7", "\\\nq", "a\\\r\nb",
+        "\\a\\b\\f\\n\\r\\t\\v", "\\\\", "\\'", "\\\"", "tab\there", "\\0010\\0020", "1\\0002", "\\065\\0661", "%d\\037", "\\127\\128\\1291", "[[", "]]", "--", "\\u{7f}7",
+    ];
+    let numbers = [
+        "0", "1", "9007199254740992", "9007199254740993", "9223372036854775807", "9223372036854775808", "18446744073709551615", "18446744073709551616", "100000000000000000000",
+        "123456789012345678901234567890", "1e15", "1e16", "1e21", "1e22", "1e23", "1e100", "1e308", "1.7976931348623157e308", "5e-324", "2.2250738585072014e-308", "0.1", "0.30000000000000004",
+        "1.3e-3", "2.7e-4", "4.7e-8", "5.2e-2", "6.6743e-11", "4.6982573308436185e159", "1.5e300", "12345.678e-2", "1E+10", "1e-5", "1e-7", ".5", "5.", "0e0", "00012", "3.14159265358979",
+        "0x10", "0XfF", "0xFFFFFFFFFFFFFFFF", "0x7fffffffffffffff", "0x8000000000000000", "0x1p4", "0b1111", "0B1010", "1_000_000", "0x_FF", "0b_1", "1__0", "1_e1_0", "123456789.123456789",
+    ];
+    let mut v = vec![];
+    for b in bodies {
+        // backticks, braces and bare quotes need the right delimiter
+        v.push(format!("return \"{}\"", b.replace("[[", "[ [")));
+        v.push(format!("return '{}'", b));
+        if !b.contains('`') {
+            v.push(format!("return `{}`", b));
+            v.push(format!("return `{}{{x}}{}`", b, b));
+            v.push(format!("return `{{x}}{}{{y}}7`", b));
+        }
+        v.push(format!("local s = f(\"{}\", \"{}\") .. \"{}\"", b, b, b));
+    }
+    for n in numbers {
+        v.push(format!("return {}", n));
+        v.push(format!("return -{}, f({}, {})", n, n, n));
+        v.push(format!("local t = {{ {} ; [{}] = {} }}", n, n, n));
+    }
+    v
+}
+
 fn run(ctx: &RunCtx) {
     // strings: exhaustive up to length 2
     let total = 1u64 + 256 + 65536;
@@ -428,6 +461,27 @@ fn run(ctx: &RunCtx) {
             Ok(None) => CaseResult::Discard("not a literal for both parsers"),
             Ok(Some(())) => CaseResult::Pass { nontrivial: Some(hash_str(text)) },
             Err(m) => CaseResult::Fail(Failure::new(m, json!({"kind": "parse_number", "text": text}))),
+        }
+    });
+    // literal SOURCE texts: read by darklua's parser, written again by the dense and readable
+    // generators, read by the independent parser: the value must be the one the independent decoder
+    // gives to the source text (escape forms followed by digits, whole numbers beyond 2^53 / 2^63 /
+    // 2^64 written with all their digits, exponent spellings, interpolated text segments)
+    let texts = literal_texts();
+    ctx.enumerate("literal_texts", texts.len() as u64 * 2, |i, st| {
+        let text = &texts[(i / 2) as usize];
+        let g = if i % 2 == 0 { crate::props::c02::Gen::Dense } else { crate::props::c02::Gen::Readable };
+        st.class("literal_source_text");
+        match crate::props::c02::check_text(text, g, 80) {
+            Ok(Some(())) => CaseResult::Pass { nontrivial: Some(hash_str(text)) },
+            Ok(None) => {
+                if luasyn::parse(text, Mode::Luau).is_ok() {
+                    CaseResult::Fail(Failure::new(format!("darklua refuses the valid literal text {:?}", text), json!({"kind": "literal_text", "text": text, "generator": format!("{:?}", g)})))
+                } else {
+                    CaseResult::Discard("harness: literal text is not valid for the independent parser")
+                }
+            }
+            Err(m) => CaseResult::Fail(Failure::new(m, json!({"kind": "literal_text", "text": text, "generator": format!("{:?}", g)}))),
         }
     });
     ctx.exhaustive.store(true, std::sync::atomic::Ordering::Relaxed);
@@ -538,6 +592,14 @@ fn replay(v: &Value) -> Result<(), String> {
             check_number(&spec, g, span, ctx).map(|_| ())
         }
         Some("parse_number") => check_parse_number(v.get("text").and_then(|s| s.as_str()).ok_or("malformed C13 replay")?).map(|_| ()),
+        Some("literal_text") => {
+            let text = v.get("text").and_then(|s| s.as_str()).ok_or("malformed C13 replay")?;
+            let g2 = if matches!(g, G::Readable) { crate::props::c02::Gen::Readable } else { crate::props::c02::Gen::Dense };
+            match crate::props::c02::check_text(text, g2, span)? {
+                Some(()) => Ok(()),
+                None => Err(format!("darklua refuses the valid literal text {:?}", text)),
+            }
+        }
         _ => Err("malformed C13 replay".into()),
     }
 }
